@@ -84,6 +84,30 @@ add('C15', 'exploration',
     'TLA+ relations in Arrays.tla (round trip identity, foreach activation sequence = list, newline framing model) evaluated by TLC (ArraysTrace.tla) on recordings of the real WriteArray -> bytes -> ReadArray / ReadArrayWithType of every registered array type (mxh arrays-roundtrip) and of real `foreach` runs over those bytes',
     'The types registered with both an array writer and reader are discovered from the real registry; per type all lists of <=2 elements, a seeded sample of triples over 4 spellings of its legal alphabet, seeded random lists of 0-50 elements and lists with elements up to 60 KiB are written, read back and iterated; TLC judges every record; byte-level framing is modelled for str, string, generic, *, jsonl, the other types are identity-checked.',
     'legal alphabets per type are listed in the evidence; toml refuses to write arrays and is excluded; the empty list is not judged for writers that report "no data returned" by design', 'DESIGN §6 C15')
+add('C24', 'model_checking',
+    'TLA+ spec Flags.tla: TLC checks the transcribed ParseFlags loop (previous/ignoreFlags registers, alias rewrite with a termination measure) against the declarative rule of the property on every input in the bound and exports input + expected result + expected `args` variable; every input is run through the real parameters.ParseFlags and a seeded subset through the real `args` builtin and compared',
+    'Exhaustive: every flag table over 2 flags (str/int/num/bool, aliases incl. self-alias, 2-cycle, dangling) x option combinations x every argument list of <=2 (thorough <=3) tokens; plus a VERIF_SEED-seeded sample (12k / 120k) over 4 flags with alias chains <=3 and <=5/6 arguments, evaluated by TLC from a file. Operational = declarative is an invariant and every step decreases a natural-number measure (alias cycles must end in an error). Compared on real code: error or not, each flag with Go type and value, additional parameters; through `args`: variable stored, Error text present iff the rule says error, Flags/Additional as JSON.',
+    'only error/no-error is compared, not error wording; inputs the property leaves open (declared flag or `--` directly after a value flag, fraction for an int flag, same flag twice, alias ending at an undeclared name, undeclared flag under IgnoreInvalidFlags) are executed but not judged', 'DESIGN §6 C24')
+add('C23', 'model_checking',
+    'TLA+ spec FuncSig.tla: TLC checks the transcribed 9-context loop of ParseMxFunctionParameters against a recogniser of the documented grammar (acceptance and all fields) on every class string in the bound plus a seeded sample of long signatures, and the transcribed castParameters loop against the declarative binding rule on every call in the bound; every signature is parsed by the real lang.ParseMxFunctionParameters and every call is run by the real interpreter and compared',
+    'Signatures are strings over the 10 character classes the parser distinguishes; exhaustive <=4 (thorough <=5) classes plus 10k/150k sampled well-formed-then-damaged signatures; name, type, optional, default, description compared. Calls: 1-2 parameters exhaustively (types str/int/num/bool x mandatory/optional/optional+default x argument lists) plus sampled 2-3 parameter calls; observed: body ran or not, exit number, printed value of each variable.',
+    'a signature is judged only if the narrowest and widest reading of the documented grammar agree; calls missing a mandatory argument (readline prompt) are not executed', 'DESIGN §6 C23')
+add('C31', 'model_checking',
+    'TLA+ spec UnitTest.tla: TLC checks the transcribed runTest sequence of checks (with its passed flag) against the rule "exit number equal and every assertion present holds" for every (function, plan) in the bound and exports the verdict table; every case is run as function + `test unit function` + `test run-unit` by the real interpreter and compared',
+    '6 functions with fixed outcomes (each verified by a calibration run) x 5.2k (thorough 17.4k) plans over StdoutMatch/Regex/Type/IsArray/IsMap/GreaterThan, StderrMatch/Regex/Type/IsArray/IsMap and ExitNum; every emitted row is executed; exit number of `test run-unit` and the PASSED/FAILED report compared with the table.',
+    'not judged: a plan without Stderr assertions on a function that writes to stderr (undocumented default), structure/length assertions on `str` streams, type assertions on untyped streams', 'DESIGN §6 C31')
+add('C11', 'model_checking',
+    'TLA+ spec Scopes.tla (Family "var"): TLC builds every well-nested history of set / unset / global set / global unset / call..return / block..end up to the bound, checks after every operation that the transcribed fork-and-table machine observes exactly what the declarative call-ownership rule of the property says (plus action properties: writes are local, a return restores the caller view) and exports the case table; every history is rendered to a murex program and run by the real interpreter, `$n` and `$GLOBAL.n` of every name compared after every operation',
+    'All histories of <=4 operations over two names (thorough: <=5 over two names, <=6 over one name) are enumerated by TLC with operational = declarative as an invariant; each is rendered with one murex function per call and blocks as if / switch / foreach / ${}; the value written at position j is "vj" so every read identifies the write it saw. 12.7k (thorough 206k) programs compared.',
+    'environment variables and the exit status of !set/!global on unbound names are outside the property', 'DESIGN §6 C11')
+add('C25', 'model_checking',
+    'TLA+ spec Scopes.tla (Family "cfg"): TLC builds every well-nested history of `config set` / `config default` on one Global and one non-global option with call..return and block..end, for a session-level and a function-level body, checks that the transcribed config tables (Copy parented to the global table, Set forwarding global options, override-then-global lookup, Default through Set) observe what the declarative rule says, and exports the table; every history is executed by the real interpreter and `config get` of both options compared after every operation',
+    'All histories of <=4 (thorough <=5) operations x {session, function} body with operational = declarative as an invariant; rendered with a per-program `config define` pair and, for function-level bodies, with the built-in pair http user-agent / shell max-suggestions. 10.5k (thorough 60k) programs compared.',
+    'built-in options are not set at session level (would leak into later programs)', 'DESIGN §6 C25')
+add('C12', 'model_checking',
+    'TLA+ spec Values.tla: TLC builds every history a = D ; copy / `$v.path = x` / function(json parameter) assigning into it over 4 document shapes, 4 scalars and all path classes, checks that the transcribed implementation (names -> heap objects, copy = marshal+parse, alter loop descending by type, converting at the leaf) yields exactly the value-semantics result of the property and exports expected documents, read-back, frame and leaves per step; every history is run by the real interpreter and compared',
+    'After every operation each variable is printed and every leaf is read on its own with `$v.path`; judged: other variables never change; when an assignment reports success every other path keeps its value and, where the property defines the result, read-back and whole document equal the specification.',
+    'assignments murex rejects are not judged on the assigned variable; bool<->number/string leaf conversions: only frame/other variables judged', 'DESIGN §6 C12')
 
 
 def main():
